@@ -12,7 +12,7 @@ RULE = (
     "on_completed/dispose on one Subject, indices resolved modulo the live observers; observer behaviours: plain recorder, "
     "unsubscribe itself / unsubscribe another observer / subscribe a new observer from inside its k-th callback "
     "(k in 0..4). Enumerated: every command sequence of length <= 4 (quick) / <= 6 (thorough) over a 10-symbol alphabet "
-    "(4 behaviours at k=0, unsub, next, error, completed, dispose, fail). Oracle: an explicit model (observer list in "
+    "(4 behaviours at k=0, unsub, next, error, completed, dispose, fail) extended by an 11th symbol, an observer that calls subject.dispose() from inside its first callback (sequences using it: length <= 4 quick / <= 5 thorough). Oracle: an explicit model (observer list in "
     "subscription order, terminal state, disposed flag) executed in lock-step; after EVERY command the received list of "
     "every observer (type-tagged values), the exception raised by the call (DisposedException after dispose for "
     "on_next/on_error/on_completed/subscribe) and the length of subject.observers are compared. Delivery goes to the "
@@ -24,7 +24,13 @@ RULE = (
     "truth value is False (it defines __len__ == 0). det (Engine DET, vlib/det.py: line-level yield points, cooperative locks, subject created after patching): thread A subject.subscribe(recorder) || thread B a fixed list of 1-3 emitting calls, 0/1 observer subscribed beforehand, either thread scheduled first; every schedule with <=1 (quick) / <=2 (thorough) preemptions is run; oracle = linearizability against the same sequential model: the racing subscriber's list must equal the model's list for SOME position of its subscribe in the emitter's call sequence (so its first notification is the value current at registration and nothing earlier follows), earlier subscribers see the sequential outcome, no deadlock/exception; the racing call may also be dispose() on a live / completed / errored subject (allowed: the outcome of subscribing before it, or DisposedException raised or routed to on_error with nothing else); non-trivial = calls overlapped and >=2 distinct outcomes observed. det_error (run last): the same with on_error as the terminal call. raising: histories whose observers are plain except one whose k-th handler raises; checked afterwards: observers served before "
     "it, every later notification to every subscribed observer, terminal / current value for later subscribers; left open: "
     "re-raise to the caller, the rest of that one delivery, the raiser itself; non-trivial there = a notification was delivered in a "
-    "later command than the raise. Histories also terminate through the public "
+    "later command than the raise. dispose_cb: histories in which some observers call subject.dispose() from inside their k-th callback "
+    "(k in 0..3), i.e. possibly in the middle of a broadcast (also in the enumeration). Determined and checked exactly: observers served before the disposer and the disposer itself get the "
+    "notification; afterwards the subject is disposed (emitting/subscribing raise DisposedException, nothing more is delivered). For the "
+    "observers later in that snapshot both readings are accepted ('subscribed when the call is made' -> they get THIS notification; "
+    "dispose() 'unsubscribes all observers' -> they get nothing), but nothing else: an observer that does receive something must receive "
+    "exactly the notification being broadcast (on_error(e) stays on_error(e), never on_completed), at most once; its own in-callback action then runs as usual. "
+    "Non-trivial there = an observer later in the snapshot than the disposer existed. Histories also terminate through the public "
     "Observer.fail(e) (no effect on a terminated/disposed subject): same terminal clauses as on_error. Distinct = distinct case JSON."
 )
 ASSUMPTIONS = [
@@ -33,6 +39,7 @@ ASSUMPTIONS = [
     "after dispose(), subscribe(observer) may either raise DisposedException or (Observable.subscribe's documented routing) deliver it to observer.on_error as the only notification; subscribe(on_next) without an error handler must raise it",
     "callbacks never emit re-entrantly into the subject; a raising callback is only exercised by the dedicated raising check (one raiser, other observers plain)",
     "len(subject.observers) == number of subscribed observers is taken from the property's anchored state ('observers: currently subscribed observers')",
+    "when an observer disposes the subject from inside a callback, whether the observers later in that snapshot still get the notification is left open (decided per observer from what the real one received in that command); that they get no OTHER notification, and everything else, is not",
 ]
 
 _ALPHABET = [
@@ -46,6 +53,7 @@ _ALPHABET = [
     ["completed"],
     ["dispose"],
     ["fail", "e2"],
+    ["sub", {"k": "dispose_subject", "at": 0}],
 ]
 
 
@@ -54,7 +62,16 @@ def _run(case):
 
 
 def _enum(tier):
-    return enumerate_histories(_ALPHABET, [{}], 4 if tier == "quick" else 6)
+    if tier == "quick":
+        yield from enumerate_histories(_ALPHABET, [{}], 4)
+        return
+    # thorough: the 10 older symbols to length 6 (as before), plus every sequence of length <= 5 that uses the
+    # dispose-from-a-callback observer (11^6 would nearly double the enumeration for little extra)
+    yield from enumerate_histories(_ALPHABET[:-1], [{}], 6)
+    ds = _ALPHABET[-1]
+    for case in enumerate_histories(_ALPHABET, [{}], 5):
+        if ds in case["cmds"]:
+            yield case
 
 
 _DET_PROGRAMS = [({}, [['next', 'i0']]), ({}, [['next', 'none'], ['next', 'i1']]), ({}, [['next', 'i0'], ['completed']]), ({}, [['completed']])]
@@ -90,6 +107,7 @@ def checks(tier):
         Check("enum", _run, cases=_enum, shards={"quick": 8, "thorough": 16}, exhaustive=True),
         Check("gen", _run, strategy=histories("subject", n), examples={"quick": 3200, "thorough": 16 * 20000}, shards={"quick": 8, "thorough": 16}),
         Check("raising", _run, strategy=histories("subject", n, raising=True), examples={"quick": 800, "thorough": 16 * 6000}, shards={"quick": 8, "thorough": 16}),
+        Check("dispose_cb", _run, strategy=histories("subject", min(n, 60), dispose_cb=True), examples={"quick": 800, "thorough": 16 * 6000}, shards={"quick": 8, "thorough": 16}),
         Check("det", det_race, cases=_det_cases, shards={"quick": 8, "thorough": 16}, exhaustive=True),
         # last on purpose: a failure here must not cut the searches above short
         Check("falsy_error", _run, strategy=histories("subject", 12, falsy_error=True), examples={"quick": 400, "thorough": 16 * 1000}, shards={"quick": 1, "thorough": 16}),
